@@ -122,6 +122,21 @@ def run(ck):
                 last_open_enabled = "enabled" if "Def" in kinds or not kinds else "disabled"
                 ck.fail("C15|unterminated-not-reported", "conditional left unterminated at end of file is not reported: %s" % " / ".join(seq),
                         {"cmd": "parse", "text_hex": hexs(text)}, pr, "at least one syntax error")
+        # an unterminated conditional is reported AS SUCH (another error near the end of the text does not stand in for it): the
+        # diagnostics of the file name the missing #endif
+        unt = [(seq, text) for seq, text in zip(batch, texts) if (not reference(seq)[0]) and unterminated(seq)]
+        if len(unt) > 6000:
+            unt = unt[:: max(1, len(unt) // 6000)]
+        ws_out = core.impl([core_ws({"/main.td": t}, "/main.td", [["diagnostics"]]) for _, t in unt], tag="unt15")
+        for (seq, text), o in zip(unt, ws_out):
+            try:
+                msgs = [d[3] for _, ds in json.loads(o)[0] for d in ds]
+            except Exception:
+                continue
+            # (recognised by what it talks about, not by its wording)
+            if not any(any(w in m.lower() for w in ("#endif", "endif", "unterminated", "conditional", "eof", "end of file")) for m in msgs):
+                ck.fail(["C15", "unterminated-not-named", " / ".join(seq)], "the conditional left unterminated at the end of the file is not reported (other diagnostics: %s): %s" % (msgs[:2], " / ".join(seq)),
+                        {"cmd": "ws", "text_hex": hexs(text)}, msgs[:4], "a diagnostic naming the missing #endif")
         ck.count("exhaustive", len(batch), nontriv, sample={"sequence": batch[len(batch) // 2], "impl_prep": a[len(batch) // 2][:200]})
 
     for k in range(n + 1):
